@@ -48,6 +48,8 @@ type nodeEnv struct {
 	votePend uint64
 	// signedFor[target/order][source] = the valid signature handed out for that link
 	signedFor map[string]map[bc.Hash][]byte
+	// forceRelabel: every invalid signature is a relabelled genuine one when one is available
+	forceRelabel bool
 }
 
 type detReader struct{ r *rand.Rand }
@@ -171,6 +173,8 @@ type node struct {
 	disp  *event.Dispatcher
 	pool  *protocol.TxPool
 	chain *protocol.Chain
+	// set by dumpContracts when Store.GetContract and the persisted row disagree
+	contractMismatch string
 }
 
 func newNode(env *nodeEnv, db dbm.DB) (n *node, err error) {
@@ -303,9 +307,22 @@ type blockSpec struct {
 	rewards  map[string]uint64 // rewards of the previous checkpoint (epoch-start blocks)
 	ckptTs   uint64            // timestamp of the previous checkpoint block
 	nVal     int
+	cbProg   []byte // program of the block's own coinbase output (nil: TRUE)
 }
 
 func coinbaseTx(height uint64, arb byte, rewards map[string]uint64, E uint64) *types.Tx {
+	return coinbaseTxFor(opTrue, height, arb, rewards, E)
+}
+
+// altCoinbaseProg: a second always-true program (TRUE TRUE EQUAL). Blocks that pay it earn their
+// proposer reward under another key of the checkpoint's reward table than the node's own
+// proposer (which pays the default coinbase program, TRUE).
+var altCoinbaseProg = []byte{0x51, 0x51, 0x87}
+
+// coinbaseTxFor: the block's own (first) output pays `own`; the first block of an epoch pays
+// the whole reward table of the closed epoch.
+func coinbaseTxFor(own []byte, height uint64, arb byte, rewards map[string]uint64, E uint64) *types.Tx {
+	opTrue := own // the rest of the function is written for "the block's own program"
 	arbitrary := append([]byte{0x00}, []byte(fmt.Sprint(height))...)
 	arbitrary = append(arbitrary, arb)
 	outs := []*types.TxOutput{types.NewOriginalTxOutput(*consensus.BTMAssetID, 0, opTrue, [][]byte{})}
@@ -343,7 +360,11 @@ func slotOrder(ckptTs, ts uint64, nVal int) int {
 func (env *nodeEnv) buildBlock(s blockSpec) *types.Block {
 	height := s.parent.Height + 1
 	ts := s.parent.Timestamp + nodeInterval*(1+s.slotSkip)
-	cb := coinbaseTx(height, s.arb, s.rewards, env.E)
+	own := s.cbProg
+	if own == nil {
+		own = opTrue
+	}
+	cb := coinbaseTxFor(own, height, s.arb, s.rewards, env.E)
 	txs := append([]*types.Tx{cb}, s.txs...)
 	var bcTxs []*bc.Tx
 	for _, t := range txs {
@@ -368,6 +389,8 @@ func (env *nodeEnv) signBlock(b *types.Block, order int) {
 	sig := env.keys[order].Sign(b.BlockHeader.Hash().Bytes())
 	b.BlockHeader.BlockWitness.Set(sig)
 }
+
+var relabelledVotes int
 
 // voteMsg builds a signed verification message by validator `order` for source -> target.
 func (env *nodeEnv) voteMsg(order int, source, target bc.Hash, valid bool) *casper.ValidCasperSignMsg {
@@ -396,7 +419,22 @@ func (env *nodeEnv) voteMsg(order int, source, target bc.Hash, valid bool) *casp
 		// source (a verifier that remembers "this validator's signature for this target was
 		// good" without the source accepts it)
 		replayed := false
-		if source.V0&1 == 0 {
+		// or a RELABELLED vote: the genuine signature ANOTHER validator handed out for the very same
+		// link, presented under this validator's public key (a verifier that remembers "this
+		// signature for this message was good" without the key accepts it)
+		if (source.V0>>1)&1 == 0 || env.forceRelabel {
+			for o := 0; o < len(env.keys) && !replayed; o++ {
+				if o == order {
+					continue
+				}
+				if other, ok := env.signedFor[fmt.Sprintf("%x/%d", target.Bytes(), o)][source]; ok {
+					sig = append([]byte{}, other...)
+					replayed = true
+					relabelledVotes++
+				}
+			}
+		}
+		if !replayed && source.V0&1 == 0 {
 			var srcs []bc.Hash
 			for src := range env.signedFor[rk] {
 				if src != source {
